@@ -334,6 +334,21 @@ STATEMENTS = {
         ('g(a="s");', PRE_G),
         ('g({a: 1});', PRE_G),
         ('g({a: -1, b: "s"});', PRE_G),
+        # triage round 5: vanilla `function` commands with paths of every depth (one to five segments, glued and spaced),
+        # plain / with arguments / `with` a source; deep dotted JMC paths
+        'function a:b;',
+        'function a:b/c;',
+        'function a:b/c/d;',
+        'function a:b/c/d/e;',
+        'function a:b/c/d/e/g;',
+        'function a:b / c / d / e / g;',
+        'function a:b/c/d/e/g with storage a:b p;',
+        'function a:b/c with entity @s p.q;',
+        'function #a:b/c;',
+        'execute as @a run function a:b/c/d/e/g;',
+        'schedule function a:b/c/d/e/g 1t;',
+        ('a.b.c.d.e();', 'function a.b.c.d.e() { say "deep"; }'),
+        ('function TEST:a/b/c/d/e;', 'function a.b.c.d.e() { say "deep"; }'),
     ],
     'return': [
         'return 1;',
